@@ -460,11 +460,13 @@ class GridBlueprint(yamlize.Object):
         # after much struggle, so we just auto-convert here to deal
         # with int-like specifications.
         # (yamlize.StrList fails to coerce when ints are provided)
-        latticeIDs = [str(i) for i in latticeIDs]
+        # The same holds for explicit ``grid contents``, whose values are YAML values as well
+        # (an unquoted 1 is an int there, but the text "1" in a lattice map).
+        latticeIDs = [_latticeIdAsText(i) for i in latticeIDs]
         locators = []
         for (i, j), spec in self.gridContents.items():
             locator = spatialGrid[i, j, 0]
-            if spec in latticeIDs:
+            if _latticeIdAsText(spec) in latticeIDs:
                 locators.append(locator)
         return locators
 
@@ -478,6 +480,20 @@ class GridBlueprint(yamlize.Object):
 class Grids(yamlize.KeyedList):
     item_type = GridBlueprint
     key_attr = GridBlueprint.name
+
+
+def _latticeIdAsText(value) -> str:
+    """
+    Lattice IDs are text, but YAML reads unquoted ones like 1, 2.5, true or null as numbers,
+    booleans or null. Return the text they were written as.
+    """
+    if value is True:
+        return "true"
+    if value is False:
+        return "false"
+    if value is None:
+        return "null"
+    return str(value)
 
 
 def _getGridSize(idx) -> Tuple[int, int]:
